@@ -1001,6 +1001,12 @@ func (r *Resolver) checkDname(
 }
 
 func (r *Resolver) answer(ctx context.Context, req, resp *dns.Msg, parentDS []dns.RR, zone string, extra ...bool) (*dns.Msg, error) {
+	// Bailiwick: the servers of `zone` speak only for names inside it. Drop
+	// answer records owned elsewhere (an alias chain continued with an
+	// out-of-zone target in the same message); the target is re-resolved
+	// through its own delegation path by the alias chase.
+	resp.Answer = dnsutil.FilterRRsToZone(resp.Answer, zone)
+
 	// The internal recursion's target response is held back until
 	// after the outer DNSSEC check. Merging target records into resp
 	// before dnssec.VerifyRRSIG() would force the validator to tolerate
@@ -4036,6 +4042,12 @@ func (r *Resolver) resolveWithCachedNameservers(ctx context.Context, rs *resolve
 	}
 
 	rs.level++
+	if n := dns.CountLabel(q.Name); rs.level < n {
+		// A referral may cross several labels at once. Continue at the depth
+		// the uncached path uses (processDelegation: rs.level = nlevel), so the
+		// glue bailiwick test never runs shallower than the zone being asked.
+		rs.level = n
+	}
 	rs.servers = cached.Servers
 	rs.parentDS = cached.DSSet
 	rs.isRoot = false
